@@ -68,3 +68,34 @@ Example C13_zrlt_instance :
   zinv [8; 1; 0; 255; 1; 0; 255; 0; 4; 0; 0] 13 = Some [7; 0; 0; 0; 0; 0; 255; 0; 254; 3; 0; 0; 0] /\
   zfwd [1; 2; 3; 255] 4 = None.
 Proof. vm_compute. repeat split; reflexivity. Qed.
+
+(* ---------- SBRT: the MTFT and RANK transforms and the time-stamp mode (transform/SBRT.go, Model/SBRT.v) ---------- *)
+From KV Require Import Model.SBRT Proofs.BinCoderProofs Proofs.SBRTProofs.
+
+(* for EVERY block of bytes and every mode: Forward keeps the length, produces bytes, and Inverse into any
+   destination that can hold the block returns the block exactly *)
+Theorem C13_sbrt_exact_inverse : forall mode x cap y, bytes_ok x -> sbrt_fwd mode x cap = Some y ->
+  length y = length x /\ bytes_ok y /\ forall cap', (length x <= cap')%nat -> sbrt_inv mode y cap' = Some x.
+Proof. exact sbrt_roundtrip. Qed.
+Print Assumptions C13_sbrt_exact_inverse.
+
+Theorem C13_sbrt_keeps_the_stage_contract : forall mode, good (sbrt_stage mode).
+Proof. exact sbrt_stage_good. Qed.
+Print Assumptions C13_sbrt_keeps_the_stage_contract.
+
+(* chains of the proved stages round-trip through the sequence glue (skip flags, buffer swaps, final copy) *)
+Theorem C13_proved_stages_compose : forall ts src dcap skip out,
+  Forall (fun t => t = zrlt_stage \/ exists mode, t = sbrt_stage mode) ts -> (length ts <= 8)%nat ->
+  seq_forward ts src dcap = FOk skip out -> seq_inverse ts out (length src) skip = IOk src.
+Proof.
+  intros ts src dcap skip out Hts Hl H. apply (seq_roundtrip ts src dcap skip out); [|exact Hl|exact H|apply le_n].
+  eapply Forall_impl; [|exact Hts]. intros t [->|[mode ->]]; [exact zrlt_stage_good|exact (sbrt_stage_good mode)].
+Qed.
+Print Assumptions C13_proved_stages_compose.
+
+Example C13_sbrt_instance :
+  sbrt_fwd 1 [3; 3; 1; 3; 0; 255; 1] 40 = Some [3; 0; 2; 1; 2; 255; 3] /\
+  sbrt_fwd 2 [3; 3; 1; 3; 0; 255; 1; 3; 3; 1] 43 = Some [3; 0; 2; 1; 2; 255; 3; 3; 0; 1] /\
+  sbrt_inv 2 [3; 0; 2; 1; 2; 255; 3; 3; 0; 1] 10 = Some [3; 3; 1; 3; 0; 255; 1; 3; 3; 1] /\
+  sbrt_fwd 1 [3; 3; 1] 35 = None.
+Proof. vm_compute. repeat split; reflexivity. Qed.
